@@ -658,6 +658,9 @@ def _run_shard(ctx, pristine, order_dependent) -> None:
         ctx.res.extra["enumerated_shapes"] = len(shapes)
     # large shapes first within a shard would starve small ones on budget exhaustion: keep small-first order
     idx = 0
+    # evidence: the enumerated sub-space counts as complete only if no shard is cut inside it (the sampled groups above
+    # have their own 45% slice of the budget and do not affect this flag)
+    ctx.res.extra["enum_complete"] = False
     for si, shape in enumerate(shapes):
         for ann in _ann_masks(ctx, shape, si, all_masks_upto):
             idx += 1
@@ -678,3 +681,4 @@ def _run_shard(ctx, pristine, order_dependent) -> None:
                 ctx.case(1 if nt else None, ["sig:" + r, *(feats if r == "def" else ())], sample, enumerated=True)
             for f in fails:
                 ctx.fail(f, m)
+    ctx.res.extra["enum_complete"] = True
